@@ -37,10 +37,10 @@ class PopenPeer(object):
     def write(self, data):
         if self.exited:
             return
-        q0 = self.p._read_queue.qsize()
+        q0 = common.qlen(self.p)
         os.write(self.cw, b'W' + len(data).to_bytes(4, 'big') + data); os.read(self.ar, 1)
         for _ in range(2000):
-            if self.p._read_queue.qsize() > q0:
+            if common.qlen(self.p) > q0:
                 break
             time.sleep(0.0005)
 
@@ -48,10 +48,10 @@ class PopenPeer(object):
         if self.exited:
             return
         self.exited = True
-        q0 = self.p._read_queue.qsize()
+        q0 = common.qlen(self.p)
         os.write(self.cw, b'E'); os.read(self.ar, 1)
         for _ in range(4000):
-            if self.p._read_queue.qsize() > q0:
+            if common.qlen(self.p) > q0:
                 break
             time.sleep(0.0005)
 
